@@ -24,12 +24,88 @@ fn acct(k: u64) -> D4 {
 fn blk(k: u64) -> D4 {
     if k == 0 {
         [F::ZERO; 4]
+    } else if k == 3 {
+        [f(1), f(P - 1), f(0), f(0)] // non-zero hash whose limbs sum to zero
     } else {
         [f(k), f(0), f(P - 1), f(k << 33)]
     }
 }
 fn nul(k: u64) -> D4 {
     [f(k.wrapping_mul(0x9E37_79B9_7F4A_7C15) % P), f(k), f(M32 + k), f(P - 1 - k)]
+}
+
+/// digests that alias under lossy folds of the four limbs (plain / weighted / alternating sums, products,
+/// limb permutations): a comparison that is not limb-wise treats them as zero or as equal
+pub fn zero_alias_digest(rng: &mut impl Rng) -> D4 {
+    let neg = |x: u64| -> u64 { (P - (x % P)) % P };
+    match rng.gen_range(0..8) {
+        0 => [f(1), f(P - 1), f(0), f(0)],
+        1 => [f(0), f(0), f(P - 90), f(90)],
+        2 => {
+            let (a, b, c) = (rng.gen_range(1..P), rng.gen_range(1..P), rng.gen_range(1..P));
+            let s = ((a as u128 + b as u128 + c as u128) % P as u128) as u64;
+            [f(a), f(b), f(c), f(neg(s))]
+        }
+        3 => {
+            // alternating sum zero: a - b + c - d = 0
+            let (a, b, c) = (rng.gen_range(1..1 << 62), rng.gen_range(1..1 << 62), rng.gen_range(1..1 << 62));
+            let d = ((a as u128 + P as u128 - b as u128 + c as u128) % P as u128) as u64;
+            [f(a), f(b), f(c), f(d)]
+        }
+        4 => {
+            // sum with weights 1,2,3,4 zero: d = -(a+2b+3c)/4
+            let (a, b, c) = (rng.gen_range(1..1 << 60), rng.gen_range(1..1 << 60), rng.gen_range(1..1 << 60));
+            let t = (a as u128 + 2 * b as u128 + 3 * c as u128) % P as u128;
+            let inv4 = F::from_canonical_u64(4).inverse();
+            let d = (F::ZERO - F::from_canonical_u64(t as u64)) * inv4;
+            [f(a), f(b), f(c), d]
+        }
+        5 => {
+            // base-2^32 packing zero: a + 2^32 b + 2^64 c + 2^96 d = 0 (mod p)
+            let (b, c, d) = (rng.gen_range(1..1 << 32), rng.gen_range(1..1 << 32), rng.gen_range(1..1 << 32));
+            let w = F::from_canonical_u64(1 << 32);
+            let a = F::ZERO - (w * f(b) + w * w * f(c) + w * w * w * f(d));
+            [a, f(b), f(c), f(d)]
+        }
+        6 => {
+            // one limb zero (product of limbs is zero), others random
+            let mut d = rand_d4(rng);
+            d[rng.gen_range(0..4)] = F::ZERO;
+            d
+        }
+        _ => {
+            let k = rng.gen_range(0..4);
+            let mut d = [F::ZERO; 4];
+            d[k] = f(*[1u64, 1 << 32, P - 1].get(rng.gen_range(0..3)).unwrap());
+            d
+        }
+    }
+}
+
+/// a digest different from `base` that collides with it under lossy folds
+pub fn equal_alias_digest(rng: &mut impl Rng, base: &D4) -> D4 {
+    let mut d = *base;
+    match rng.gen_range(0..4) {
+        0 => {
+            // same limb sum
+            let (i, j) = (rng.gen_range(0..4), rng.gen_range(0..4));
+            if i != j {
+                d[i] += F::ONE;
+                d[j] -= F::ONE;
+            } else {
+                d[i] += F::ONE;
+            }
+        }
+        1 => d.swap(0, 3),
+        2 => d.rotate_left(1),
+        _ => {
+            d[rng.gen_range(0..4)] += f(1 << 32);
+        }
+    }
+    if d == *base {
+        d[0] += F::ONE;
+    }
+    d
 }
 
 pub fn slot_json(s: &Slot) -> Value {
@@ -43,7 +119,7 @@ pub fn vec_json(v: &[Slot]) -> Value {
 pub fn slot_domain(level: usize) -> Vec<Slot> {
     let assets: &[u64] = &[0, 7];
     let fees: &[u64] = &[0, 10];
-    let blocks: &[u64] = &[0, 1, 2];
+    let blocks: &[u64] = &[0, 1, 2, 3];
     let numbers: &[u64] = if level >= 2 { &[0, 5] } else { &[5] };
     let o1s: &[u64] = &[0, 1, M32];
     let o2s: &[u64] = if level >= 1 { &[0, 1, M32] } else { &[0, M32] };
@@ -97,11 +173,18 @@ pub enum Inject {
 /// random vector of N slots with forced collisions; real slots attainable
 pub fn random_vector(rng: &mut impl Rng, n: usize, inject: Inject) -> (Vec<Slot>, Vec<D4>) {
     let asset = f(if rng.gen_bool(0.5) { 0 } else { rng.gen_range(0..=M32) });
-    let block = rand_d4(rng);
+    let block = if rng.gen_bool(0.3) { zero_alias_digest(rng) } else { rand_d4(rng) };
     let fee = f(rng.gen_range(0..=10000));
     let number = f(rng.gen_range(0..=M32));
     let naccts = rng.gen_range(1..=3usize);
     let mut accts: Vec<D4> = (0..naccts).map(|_| rand_d4(rng)).collect();
+    if rng.gen_bool(0.3) {
+        let a = equal_alias_digest(rng, &accts[0].clone());
+        accts.push(a);
+    }
+    if rng.gen_bool(0.1) {
+        accts.push(zero_alias_digest(rng));
+    }
     if rng.gen_bool(0.3) {
         accts.push([F::ZERO; 4]);
     }
@@ -156,6 +239,11 @@ pub fn random_vector(rng: &mut impl Rng, n: usize, inject: Inject) -> (Vec<Slot>
         slots.push(s);
     }
     let reals: Vec<usize> = (0..n).filter(|&i| real_flags[i]).collect();
+    // nullifiers that collide under lossy folds but are distinct
+    if reals.len() >= 2 && rng.gen_bool(0.3) {
+        let base = slots[reals[0]].nullifier;
+        slots[reals[1]].nullifier = equal_alias_digest(rng, &base);
+    }
     match inject {
         Inject::None => {}
         Inject::Asset => {
@@ -165,7 +253,14 @@ pub fn random_vector(rng: &mut impl Rng, n: usize, inject: Inject) -> (Vec<Slot>
         Inject::Block => {
             if reals.len() >= 2 {
                 let i = reals[rng.gen_range(0..reals.len())];
-                slots[i].block_hash[rng.gen_range(0..4)] += F::ONE;
+                match rng.gen_range(0..3) {
+                    0 => slots[i].block_hash[rng.gen_range(0..4)] += F::ONE,
+                    1 => slots[i].block_hash = equal_alias_digest(rng, &block),
+                    _ => slots[i].block_hash = zero_alias_digest(rng),
+                }
+                if slots[i].block_hash == block {
+                    slots[i].block_hash[0] += F::ONE;
+                }
             }
         }
         Inject::Fee => {
@@ -298,7 +393,7 @@ fn check_private_vector(prop: &str, w: &PrivW, slots: &[Slot], pre: &[D4], rep: 
         "C07" => {
             if all_attainable_reals {
                 if acc != macc.is_ok() {
-                    let (ok, _) = w.cso.confirm(&run);
+                    let (ok, _) = if rep.num_violations() < 6 { w.cso.confirm(&run) } else { (acc, None) };
                     if ok == acc {
                         rep.violation(
                             &format!("private-wrapper acceptance / circuit={} model={:?}", acc, macc),
@@ -785,7 +880,8 @@ pub enum PubInject {
 }
 
 pub fn random_inners(rng: &mut impl Rng, m: usize, n: usize, inj: PubInject) -> Vec<Vec<F>> {
-    let key = (rand_d4(rng), f(if rng.gen_bool(0.5) { 0 } else { rng.gen_range(0..=M32) }), f(rng.gen_range(0..=10000)));
+    let kb = if rng.gen_bool(0.3) { zero_alias_digest(rng) } else { rand_d4(rng) };
+    let key = (kb, f(if rng.gen_bool(0.5) { 0 } else { rng.gen_range(0..=M32) }), f(rng.gen_range(0..=10000)));
     let mut inners: Vec<Vec<F>> = vec![];
     let mut realflags: Vec<bool> = (0..m).map(|_| rng.gen_bool(0.7)).collect();
     if rng.gen_bool(0.1) {
@@ -808,7 +904,20 @@ pub fn random_inners(rng: &mut impl Rng, m: usize, n: usize, inj: PubInject) -> 
         let i = reals[rng.gen_range(1..reals.len())];
         match inj {
             PubInject::None => {}
-            PubInject::Block => inners[i][3 + rng.gen_range(0..4)] += F::ONE,
+            PubInject::Block => match rng.gen_range(0..3) {
+                0 => inners[i][3 + rng.gen_range(0..4)] += F::ONE,
+                1 => {
+                    let b = equal_alias_digest(rng, &key.0);
+                    inners[i][3..7].copy_from_slice(&b);
+                }
+                _ => {
+                    let mut b = zero_alias_digest(rng);
+                    if b == key.0 {
+                        b[0] += F::ONE;
+                    }
+                    inners[i][3..7].copy_from_slice(&b);
+                }
+            },
             PubInject::Asset => inners[i][1] += F::ONE,
             PubInject::Fee => inners[i][2] += F::ONE,
         }
@@ -851,7 +960,7 @@ fn check_public_vector(prop: &str, w: &PubW, inners: &[Vec<F>], addr: &D4, rep: 
         "C13" => {
             rep.nontrivial(&fp);
             if acc != macc {
-                let (ok, _) = w.cso.confirm(&run);
+                let (ok, _) = if rep.num_violations() < 6 { w.cso.confirm(&run) } else { (acc, None) };
                 if ok == acc {
                     rep.violation(&format!("public-wrapper acceptance / circuit={acc} model={macc}"),
                         &format!("public-batch wrapper (M={m},N={n}) {} a vector whose real inners {} metadata", if acc {"accepts"} else {"rejects"}, if macc {"share"} else {"do not share"}),
@@ -1049,7 +1158,7 @@ pub fn run_c36(ctx: &Ctx) -> i32 {
             }
             let mut rng = ctx.sub_rng(&format!("chain{m}x{n}"), ci as u64);
             let asset = f(0);
-            let block = rand_d4(&mut rng);
+            let block = if rng.gen_bool(0.3) { zero_alias_digest(&mut rng) } else { rand_d4(&mut rng) };
             let fee = f(rng.gen_range(0..=10000));
             let number = f(rng.gen_range(0..=M32));
             let k_batches = rng.gen_range(1..=m);
